@@ -112,7 +112,11 @@ pub fn walk_glob(rng: &mut Rng, spec: &TreeSpec) -> String {
             continue;
         }
         if let Ok(g) = Glob::new(&e) {
-            if g.has_root() == wax::query::When::Never {
+            // Never hand out a glob that would anchor a walk outside the tree: not rooted, and no
+            // absolute invariant prefix (a class such as `[/]` contributes a separator to the
+            // invariant text although it matches nothing).
+            let prefix = g.clone().partition().0;
+            if g.has_root() == wax::query::When::Never && !prefix.is_absolute() && !prefix.to_string_lossy().starts_with('/') {
                 return e;
             }
         }
